@@ -4,7 +4,7 @@
 //! each listed j the number of second words with y >= j (a prefix: y decreases in v).  TraceRejection.tla compares with the table.
 use crate::rng::ScriptRng;
 use crate::util::*;
-use rand_distr::{Binomial, Distribution, Hypergeometric};
+use rand_distr::{Binomial, Distribution, Exp1, Hypergeometric, Poisson};
 use serde_json::{json, Value};
 use std::io::{BufRead, Write};
 
@@ -47,6 +47,67 @@ pub fn drive(args: &[String]) -> i32 {
             match res {
                 Ok(evs) => for mut e in evs { e["res"] = json!("Ok"); out.push(e.to_string()); },
                 Err(p) => out.push(json!({"op": "h2pe1", "case": id, "k": 0, "res": format!("Panic: {}", p), "out": -1, "accepted_at_zero": false, "T": [0]}).to_string()),
+            }
+            continue;
+        }
+        if c.get("kernel").and_then(|k| k.as_str()) == Some("pd") {
+            // Poisson PD, steps S / Q: a normal draw (one word) giving k < l, then the uniform words that return k are a suffix
+            let lam: f64 = c["lambda"].as_str().unwrap().parse().unwrap();
+            let ks: Vec<i64> = c["ks"].as_array().unwrap().iter().map(|x| x.as_i64().unwrap()).collect();
+            for ft in ["f64", "f32"] {
+                let res = guarded(|| -> Vec<Value> {
+                    let d64 = Poisson::<f64>::new(lam).expect("constructor"); let d32 = Poisson::<f32>::new(lam as f32).expect("constructor");
+                    let mut r = ScriptRng::new(vec![0, 0], 0);
+                    let mut call = |w1: u64, w2: u64| -> (i64, u64) { r.prefix[0] = w1; r.prefix[1] = w2; r.pos = 0; r.state = 17 ^ w1; r.n32 = 0; r.n64 = 0; r.nbytes = 0;
+                        let o = if ft == "f64" { d64.sample(&mut r) } else { d32.sample(&mut r) as f64 }; (o as i64, r.words()) };
+                    let mut evs = vec![];
+                    let mut sm = crate::rng::Sm(0x9d ^ id as u64);
+                    for (j, &k) in ks.iter().enumerate() {
+                        // a first word whose normal deviate has floor k and which is followed by exactly one uniform word
+                        let mut found: Option<u64> = None;
+                        for _ in 0..400_000 { let w1 = sm.next(); let (o, nw) = call(w1, u64::MAX); if nw == 2 && o == k { found = Some(w1); break; } }
+                        match found {
+                            None => evs.push(json!({"op": "pd", "case": id, "j": j + 1, "ft": ft, "k": k, "found": false, "T": [0]})),
+                            Some(w1) => { let first_acc = first_true(0, ALL, |w| call(w1, w as u64) == (k, 2));
+                                          let t = ALL + 1 - first_acc.min(ALL + 1);
+                                          evs.push(json!({"op": "pd", "case": id, "j": j + 1, "ft": ft, "k": k, "found": true, "T": l14(t), "show": [format!("{:.10}", t as f64 / 18446744073709551616.0)]})); }
+                        }
+                    }
+                    // steps E / H: words [normal, u = 0 (rejected by S and Q), exponential, uniform]; the accepted uniform words form an
+                    // interval around the middle word; its two half-lengths and the values returned there
+                    let es: Vec<f64> = c["es"].as_array().map(|a| a.iter().map(|x| x.as_str().unwrap().parse().unwrap()).collect()).unwrap_or_default();
+                    if !es.is_empty() {
+                        let mut r4 = ScriptRng::new(vec![0, 0, 0, 0], 0);
+                        let mut call4 = |w: [u64; 4]| -> (i64, u64) { r4.prefix.clear(); r4.prefix.extend_from_slice(&w); r4.pos = 0; r4.state = 19 ^ w[3]; r4.n32 = 0; r4.n64 = 0; r4.nbytes = 0;
+                            let o = if ft == "f64" { d64.sample(&mut r4) } else { d32.sample(&mut r4) as f64 }; (o as i64, r4.words()) };
+                        // a normal word (one word) whose proposal is rejected by u = 0, so that step E follows
+                        let mut w1 = 0u64; let mut ok1 = false;
+                        for _ in 0..100_000 { let w = sm.next(); let (_, n_acc) = call(w, u64::MAX); let (_, n_rej) = call(w, 0); if n_acc == 2 && n_rej > 2 { w1 = w; ok1 = true; break; } }
+                        for (h, &ea) in es.iter().enumerate() {
+                            // exponential word: layer 1 of the ziggurat (x = u X[1]), high bits by bisection so that Exp1 returns the anchor (public primitive on a clone)
+                            let e_of = |hb: u128| -> (f64, u64) { let mut q = ScriptRng::new(vec![((hb as u64) << 12) | 1], 1); let v: f64 = Exp1.sample(&mut q); (v, q.words()) };
+                            let hb = first_true(0, (1u128 << 52) - 1, |h| e_of(h).0 >= ea);
+                            let (ev, ew) = e_of(hb);
+                            let w3 = ((hb as u64) << 12) | 1;
+                            let e_ok = ok1 && ew == 1 && (ev - ea).abs() < 1e-12;
+                            let half: u128 = 1u128 << 63;
+                            let mid = call4([w1, 0, w3, half as u64]);
+                            let acc_p = |o: (i64, u64), k: i64| o.1 == 4 && o.0 == k;
+                            // upper side: u >= 0
+                            let (kp, ap) = if mid.1 == 4 { let k = mid.0; let last = first_true(half, ALL, |w| !acc_p(call4([w1, 0, w3, w as u64]), k)); (k, last - half) } else { (-1, 0) };
+                            // lower side: u < 0 (the word just below the middle)
+                            let below = call4([w1, 0, w3, (half - 1) as u64]);
+                            let (km, am) = if below.1 == 4 { let k = below.0; let first = first_true(0, half - 1, |w| acc_p(call4([w1, 0, w3, w as u64]), k)); (k, half - first) } else { (-1, 0) };
+                            evs.push(json!({"op": "pdh", "case": id, "h": h + 1, "ft": ft, "e_ok": e_ok, "kp": kp, "ap": l14(ap), "km": km, "am": l14(am),
+                                            "show": [format!("{:.9}", ap as f64 / 18446744073709551616.0), format!("{:.9}", am as f64 / 18446744073709551616.0)]}));
+                        }
+                    }
+                    evs
+                });
+                match res {
+                    Ok(evs) => for mut e in evs { e["res"] = json!("Ok"); out.push(e.to_string()); },
+                    Err(p) => out.push(json!({"op": "pd", "case": id, "j": 0, "ft": ft, "k": -1, "found": false, "T": [0], "res": format!("Panic: {}", p)}).to_string()),
+                }
             }
             continue;
         }
